@@ -173,7 +173,7 @@ fn run_s<const S: usize, R: Row>(case: &ShufCase, interceptor: Option<DynStreamI
     ShufRun { outs, quiescent, wall_timeout }
 }
 
-fn run<R: Row>(case: &ShufCase, interceptor: Option<DynStreamInterceptor>) -> ShufRun {
+pub fn run<R: Row>(case: &ShufCase, interceptor: Option<DynStreamInterceptor>) -> ShufRun {
     match case.shards {
         1 => run_s::<1, R>(case, interceptor),
         2 => run_s::<2, R>(case, interceptor),
